@@ -273,45 +273,8 @@ def run(repo, chk):
             chk.ob("R05.3", f"{fi.qual}:token:{tok}:discipline", False, fi.where, f"token of `{norm(call)}` is neither reset in a finally nor stored for a paired method")
 
     # ---- R05.4
-    get = repo.func("transform.StackedTransforms.get")
-    fget = facts_of(get)
-    ok, why = False, "shape not recognised"
-    # every result is self.tset.transform_for(<key>); the cases of <key> with their conditions, whether the key is named first or not
-    cases = []
-    shape_ok = True
-    for cs, v, r in returns_with_conds(get.node):
-        if not (isinstance(v, ast.Call) and norm(v.func) == "self.tset.transform_for" and len(v.args) == 1 and not v.keywords):
-            shape_ok = False
-            continue
-        a0 = v.args[0]
-        if isinstance(a0, ast.Name):
-            defs = [(t[len(a0.id) + 3:], set(c)) for t, c, n in fget.items if t.startswith(f"{a0.id} = ") and not (isinstance(n, ast.Assign) and isinstance(n.value, ast.IfExp))]
-            cases += [(txt, c | set(cs)) for txt, c in defs]
-        elif isinstance(a0, ast.IfExp):
-            from ..astq import literals
-            cases += [(norm(a0.body), set(cs) | set(literals(a0.test, True))), (norm(a0.orelse), set(cs) | set(literals(a0.test, False)))]
-        else:
-            cases.append((norm(a0), set(cs)))
-    if shape_ok and cases:
-        none_c = [c for t, c in cases if t == "None"]
-        live_c = [c for t, c in cases if t == "[cap for cap, count in self.captures.items() if count > 0]"]
-        ok = len(cases) == 2 and len(none_c) == 1 and len(live_c) == 1 and none_c[0] == {"self.instrument_count == 0"} and live_c[0] == {"self.instrument_count != 0"}
-        why = f"cases of the key: {[(t, sorted(c)) for t, c in cases]}"
-    chk.ob("R05.4", "transform.StackedTransforms.get:none-iff-count-zero", ok, get.where, "variant key is None exactly when no probe is active: " + why)
-    sb = repo.func("transform.TransformSet._set_base")
-    chk.ob("R05.4", "transform.TransformSet._set_base:base-under-None", facts_of(sb).has(f"self._register(None, {sb.node.args.args[1].arg})", exactly=[]), sb.where,
-           "the untouched function (its original code object) is what is registered under key None")
-    rg = repo.func("transform.TransformSet._register")
-    kp, fp = (a.arg for a in rg.node.args.args[1:3])
-    chk.ob("R05.4", "transform.TransformSet._register:records-code", any(isinstance(n, ast.Assign) and not c for t, c, n in facts_of(rg).starting(f"self.transforms[{kp}] = ({fp}, {fp}.__code__,")), rg.where,
-           "a variant is registered with its code object under its capture key")
-    tf = repo.func("transform.TransformSet.transform_for")
-    ftf = facts_of(tf)
-    cp = tf.node.args.args[1].arg
-    made = [c for t, c, n in ftf.items if isinstance(n, ast.Call) and is_name(n.func, "transform")]
-    ok = ftf.has(f"return self.transforms[{cp}]", exactly=[f"{cp} in self.transforms"]) and bool(made) and all(f"{cp} not in self.transforms" in c for c in made) \
-        and all(kwarg(n, "to_instrument") is not None and is_name(kwarg(n, "to_instrument"), cp) for t, c, n in ftf.items if isinstance(n, ast.Call) and is_name(n.func, "transform"))
-    chk.ob("R05.4", "transform.TransformSet.transform_for:cache-hit-first", ok, tf.where, "a registered key (including None) is returned without re-transforming; new variants instrument exactly the requested captures")
+    from .shared import variant_selection_obligations
+    variant_selection_obligations(repo, chk, "R05.4")
     si = repo.func("transform.StackedTransforms.__init__")
     chk.ob("R05.4", "transform.StackedTransforms.__init__:starts-at-zero", facts_of(si).has("self.instrument_count = 0", exactly=[]) and facts_of(si).has("self.captures = Counter()", exactly=[]),
            si.where, "a fresh stack starts with count 0 and no captures")
